@@ -51,6 +51,7 @@ class FuncRun(ExprMixin, InstrMixin, CallMixin):
         self.facted = set()
         self.fnvals = {}
         self.closure_slots = {}
+        self.rangevis = {}
         self.escaped_closures = []
         self.kind_counts = {}
         self.rec_seen = {}
